@@ -934,6 +934,66 @@ pub fn helper_name_rule(cx: &Cx, rep: &mut Report, owner: &str, want: &str) {
     rep.check(names.len() == 1 && names.iter().next() == Some(&format!("{want:?}")), "DM-attr-names", &parser.qual, want, &format!("the `#[{want}]` helper attribute is looked up under {names:?}"), &site(&parser), json!({}));
 }
 
+/// TP-span-hygiene: a template emitted under a user-derived span (`quote_spanned!(field.span()=> ..)`) gives every token it
+/// writes literally that span - and with it the hygiene context of the user's tokens. A generated local (`this`, `state`), or
+/// `self`, written there stops resolving when the item comes out of a `macro_rules!` macro whose fragment has another context.
+/// Only paths rooted at `::`, names defined inside the same template, and interpolated tokens are safe.
+pub fn span_hygiene_rule(cx: &Cx, rep: &mut Report) {
+    use proc_macro2::TokenTree;
+    struct V<'a> { found: Vec<(String, proc_macro2::TokenStream, usize)>, cur: &'a str }
+    impl<'ast, 'a> syn::visit::Visit<'ast> for V<'a> {
+        fn visit_macro(&mut self, m: &'ast syn::Macro) {
+            if m.path.segments.last().map(|s| s.ident == "quote_spanned").unwrap_or(false) { self.found.push((self.cur.to_string(), m.tokens.clone(), m.path.segments[0].ident.span().start().line)); }
+            syn::visit::visit_macro(self, m);
+        }
+    }
+    const KW: [&str; 36] = ["fn", "let", "mut", "ref", "match", "if", "else", "as", "impl", "where", "for", "in", "return", "true", "false", "Self", "crate", "super", "dyn", "move", "loop", "while", "break", "continue", "type", "const", "static", "unsafe", "pub", "use", "struct", "enum", "trait", "mod", "async", "await"];
+    let mut n = 0;
+    let mut bad: Vec<(String, String, usize)> = Vec::new();
+    for f in cx.ix.fns.values().flatten() {
+        let mut v = V { found: vec![], cur: &f.qual };
+        syn::visit::Visit::visit_block(&mut v, &f.block);
+        for (qual, toks, line) in v.found {
+            // split `span => body`
+            let all: Vec<TokenTree> = toks.into_iter().collect();
+            let Some(cut) = (0..all.len().saturating_sub(1)).find(|i| matches!((&all[*i], &all[*i + 1]), (TokenTree::Punct(a), TokenTree::Punct(b)) if a.as_char() == '=' && b.as_char() == '>')) else { continue };
+            let span_txt: String = all[..cut].iter().map(|t| t.to_string()).collect::<Vec<_>>().join("");
+            if span_txt.replace(' ', "").ends_with("call_site()") || span_txt.replace(' ', "").ends_with("mixed_site()") { continue; }
+            n += 1;
+            // flatten (groups become their tokens; delimiters do not matter here)
+            fn flat2(ts: proc_macro2::TokenStream, out: &mut Vec<TokenTree>) { for t in ts { match t { TokenTree::Group(g) => { out.push(TokenTree::Punct(proc_macro2::Punct::new(',', proc_macro2::Spacing::Alone))); flat2(g.stream(), out); out.push(TokenTree::Punct(proc_macro2::Punct::new(',', proc_macro2::Spacing::Alone))); } o => out.push(o) } } }
+            let mut body = Vec::new();
+            flat2(all[cut + 2..].iter().cloned().collect(), &mut body);
+            let is_p = |t: Option<&TokenTree>, c: char| matches!(t, Some(TokenTree::Punct(p)) if p.as_char() == c);
+            // names the template defines itself
+            let mut defined = std::collections::BTreeSet::new();
+            for i in 0..body.len() {
+                if let TokenTree::Ident(id) = &body[i] {
+                    let prev_kw = i > 0 && matches!(&body[i - 1], TokenTree::Ident(k) if k == "fn" || k == "let" || k == "mut");
+                    let colon_next = matches!(body.get(i + 1), Some(TokenTree::Punct(p)) if p.as_char() == ':' && p.spacing() == proc_macro2::Spacing::Alone);
+                    if prev_kw || colon_next { defined.insert(id.to_string()); }
+                }
+            }
+            for i in 0..body.len() {
+                let TokenTree::Ident(id) = &body[i] else { continue };
+                let name = id.to_string();
+                if i > 0 && is_p(body.get(i - 1), '#') { continue; } // interpolation
+                if i > 0 && (is_p(body.get(i - 1), '.') || (is_p(body.get(i - 1), ':') && i > 1 && matches!(body.get(i - 2), Some(TokenTree::Punct(p)) if p.as_char() == ':' && p.spacing() == proc_macro2::Spacing::Joint))) { continue; } // member / later path segment
+                if i > 0 && is_p(body.get(i - 1), '\'') { continue; } // lifetime
+                if KW.contains(&name.as_str()) { continue; }
+                if name != "self" && defined.contains(&name) { continue; }
+                bad.push((qual.clone(), name, line));
+            }
+        }
+    }
+    rep.floor("templates emitted under a user-derived span", n, 8);
+    bad.sort(); bad.dedup();
+    if bad.is_empty() { rep.pass("TP-span-hygiene"); }
+    for (qual, name, line) in bad {
+        rep.fail("TP-span-hygiene", &qual, &name, &format!("`{name}` is written literally inside a template emitted under a user-derived span (quote_spanned! at line {line}): it takes the hygiene of the user's tokens and stops resolving when the item is produced by a macro_rules! macro (E0424 / E0425 in generated code); interpolate it instead"), &format!("{} {}", cx.ix.fns.values().flatten().find(|g| g.qual == qual).map(|g| g.file.clone()).unwrap_or_default(), qual), json!({}));
+    }
+}
+
 /// DM-attr-fields: what a comparison helper attribute says is what the parsed record holds - each of ignore / reverse /
 /// by / key / bound comes from the argument of that name alone, whatever else the attribute carries
 pub fn attr_fields_rule(cx: &Cx, rep: &mut Report) {
@@ -1100,7 +1160,7 @@ pub fn expand_self_rule(cx: &Cx, rep: &mut Report) {
         let ev = mk_ev(ix);
         let outs = ev.call_fn(St::new(), f, Some(sym(&x, "input")), vec![sym("Visitor", "visit")]);
         rep.unanalysable(&f.qual, &ev.unsupported.borrow());
-        let ok = !outs.is_empty() && outs.iter().all(|(st, _)| notes(st).iter().any(|n| { let n = n.replace(' ', ""); n.contains(&want) && (n.ends_with("($input)") || n.ends_with(",$input)")) }));
+        let ok = !outs.is_empty() && outs.iter().all(|(st, _)| notes(st).iter().any(|n| { let n = n.replace(' ', ""); let n = n.split("roots=").next().unwrap_or("").to_string(); n.contains(&want) && (n.ends_with("($input)") || n.ends_with(",$input)")) }));
         rep.check(ok, "DM-expand-self", &f.qual, "whole-value", &format!("the traversal hook of `{x}` does not hand the whole value to the visitor's `visit_{snake}_mut` on every path: `Self` stays unexpanded in the parts it skips"), &site(f), json!({"paths": outs.iter().map(|(st, _)| format!("[{}] {:?}", crate::model::cond_str(&st.cond), notes(st))).collect::<Vec<_>>()}));
     }
     bad.sort(); bad.dedup();
